@@ -38,6 +38,7 @@ func checkC02(c *Ctx) {
 	c19ToBytes(c)
 	c19Same(c)
 	c19Rule = "C19-K1"
+	c19Encoder(c)
 	r.Assume("spec/layouts.json rows are my reading of the cited RFC sections; the width skeletons were written by hand from the RFC text (tools/genlayouts.py) and the field/transform strings reviewed against the code once")
 }
 
